@@ -293,6 +293,9 @@ package h2
 //@ func (*relay).processFrame
 //@   serves C08
 //@   requires r != nil && r.peer != nil && relayReady(r) && relayReady(r.peer) && contInv(r) && ref(f) != nil
+//@   modifies relay.*, outputBuffer.*, list.List.*, list.Element.*, list.List.gfront, list.List.glen, list.Element.gnext, outputBuffer.sentS, sync.Mutex.held, bytes.Buffer.blen, bytes.Buffer.bparts, bytes.Buffer.bfirst, bytes.Buffer.bview
+//@   modifies sentConn, pcN, pcKind, pcSelf, pcEnd, pcData, pcHeaders, pcPrio, pcCode, pcPromise, lastDecoded, pendEnd, pendPrio, pendPromise, lastDecodedFrom, rlN, rlKind, rlSelf, rlID, rlEnd, rlData, rlHeaders, rlPrio, rlCode, rlPromise
+//@   noframe
 //@   ensures[continuation-record-consistent] contInv(r)
 //@   ensures[data-dispatch] typeis(f, *http2.DataFrame) && result == nil ==> pcN == old(pcN) + 1 && pcKind == 1 &&
 //@        pcSelf == procOf(r, as(f, *http2.DataFrame).StreamID) && pcData == as(f, *http2.DataFrame).Data() && pcEnd == as(f, *http2.DataFrame).StreamEnded()
@@ -639,3 +642,27 @@ package h2
 //@   ensures[every-setting-is-collected-for-forwarding] result == nil && len(settings) == old(len(settings)) + 1 && settings[len(settings) - 1] == s
 //@   ensures[earlier-settings-kept-in-order] forall i int :: 0 <= i && i < old(len(settings)) ==> settings[i] == old(settings[i])
 //@   ensures[locks-released] !r.peer.decoderMu.held && !r.peer.encoderMu.held && !r.peer.flowMu.held
+
+// ---------------------------------------------------------------------------------------------
+// C10 (thin, structural): the writer goroutine reports its first write error to the reader through writerErr and must
+// never block doing so, because the reader may be blocked itself (output channel full) and then nobody would ever take
+// the error: the channel needs room for the report (capacity >= 1) and the report is sent at most once.
+//@ ghost var nWErr int
+//@ iface queuedFrame.send
+//@ func (*relay).relayFrames$2
+//@   serves C10
+//@   requires[error-report-has-room-in-the-channel] cap(writerErr) >= 1
+//@   requires r != nil && r.dest != nil && !r.destMu.held
+//@   modifies nWErr, r.destMu.held
+//@   noframe
+//@   loop 0 invariant !r.destMu.held
+//@   loop 0 invariant nWErr <= old(nWErr) + 1
+//@   loop 0 invariant err == nil ==> nWErr == old(nWErr)
+//@   at send 0 after set nWErr = nWErr + 1
+//@   ensures[write-error-reported-at-most-once] nWErr <= old(nWErr) + 1
+//@ func (*relay).relayFrames
+//@   serves C10
+//@   requires r != nil && r.peer != nil && relayReady(r) && relayReady(r.peer) && contInv(r) && r.enableDebugLogs != nil && r.src != nil
+//@   noframe
+//@   loop 0 invariant r != nil && r.peer != nil && relayReady(r) && relayReady(r.peer) && contInv(r)
+//@   at call 0 of processFrame before assume ref(arg0) != nil
